@@ -60,7 +60,12 @@ w("| check | mutants reported |\n|---|---|")
 for k, v in sorted(by_check.items()):
     w(f"| {k} | {v} |")
 w("")
-w("## Mutants no check reported\n")
+b2 = os.path.join(root, "phaseB2.tsv")
+if os.path.exists(b2):
+    rows = [l.rstrip("\n").split("\t") for l in open(b2) if l.strip()]
+    k2 = [r for r in rows if len(r) >= 6 and r[5].strip() != "KILLED:"]
+    w(f"Confirmation pass (`phaseB2.tsv`): the {len(rows)} mutants classified `gap-closed` re-run against the final checks: {len(k2)} reported, {len(rows) - len(k2)} not.\n")
+w("## Mutants no check reported in the first pass\n")
 w("| index | site | mutation | class | note |\n|---|---|---|---|---|")
 for i in sorted(surv):
     f = surv[i]
